@@ -809,6 +809,42 @@ theorem patch_merge_refines_empty_base {cmp : Bytes → Bytes → Ordering} (ol 
     (fun fuel ld h1 => R1_empty_base ol store fuel left hl kl sl ld h1)
     (fun fuel rd h2 => R1_empty_base ol store fuel right hr kr sr rd h2) content ps cs h
 
+/-- **R1_height1 (named hypothesis, the part of R1 asked for last and NOT proved)**: R1 restricted to
+well-formed trees of height ≤ 1 with an arbitrary (non-empty) base.  Proved instances: `R1_leaf` (both trees
+a single leaf), `R1_empty_base` (empty base, any height).  Open: a non-empty base against a root of leaf
+children — needs the analogue of C13's `skipCommon_spec` for `skipCommonVisitingParents` (it climbs to the
+parents without re-seating the children; that both cursors then stand at the START of equal children follows
+only from sortedness), the `lineUp` loop after a modified range (the `from` item may straddle `prevKey`; the
+next range is then sent without comparing), `splitAlign`, and the six kinds of `at` state (modified / added /
+removed × key / range) with their deferred advance in `advanceFromPreviousPatch`. -/
+def R1_height1 (cmp : Bytes → Bytes → Ordering) : Prop :=
+  ∀ (store : Addr → Option Tree) (fuel : Nat) (base x : Tree) (d : PG),
+    base.WF store → x.WF store → base.KeysOK → x.KeysOK → Sorted cmp base.flatten → Sorted cmp x.flatten →
+    base.height ≤ 1 → x.height ≤ 1 →
+    pgFromRoots base x = .ok d →
+    ∃ Inv, GenSound cmp store fuel base.flatten x.flatten Inv ∧ Inv d .start
+
+/-- **patch_merge_refines_height1_of_R1h1**: for trees of height ≤ 1 the full statement follows from
+`R1_height1` alone. -/
+theorem patch_merge_refines_height1_of_R1h1 {cmp : Bytes → Bytes → Ordering} (ol : OrdLaws cmp)
+    (hexact : ∀ a b, cmp a b = .eq → a = b) (collide : Collide) (r1 : R1_height1 cmp)
+    (store : Addr → Option Tree) (base left right : Tree)
+    (hb : base.WF store) (hl : left.WF store) (hr : right.WF store)
+    (kb : base.KeysOK) (kl : left.KeysOK) (kr : right.KeysOK)
+    (sb : Sorted cmp base.flatten) (sl : Sorted cmp left.flatten) (sr : Sorted cmp right.flatten)
+    (hhb : base.height ≤ 1) (hhl : left.height ≤ 1) (hhr : right.height ≤ 1)
+    (content : List KV) (ps : List Patch) (cs : List Collision)
+    (h : threeWayMerge cmp collide base left right = .ok (content, ps, cs)) :
+    Sorted cmp content ∧
+    (∀ k, lookupKV cmp k content =
+      (mergeKey collide (lookupKV cmp k base.flatten) (lookupKV cmp k left.flatten) (lookupKV cmp k right.flatten)).1) ∧
+    (∀ c, c ∈ cs ↔ ∃ k, (mergeKey collide (lookupKV cmp k base.flatten) (lookupKV cmp k left.flatten)
+      (lookupKV cmp k right.flatten)).2 = some c) ∧
+    cs.Pairwise (fun c1 c2 => cmp c1.left.key c2.left.key = .lt) :=
+  patch_merge_refines_of_gens ol hexact collide store base left right sb sl sr
+    (fun fuel ld h1 => r1 store fuel base left ld hb hl kb kl sb sl hhb hhl h1)
+    (fun fuel rd h2 => r1 store fuel base right rd hb hr kb kr sb sr hhb hhr h2) content ps cs h
+
 /-! ### statements that are compared by the harness, not proved -/
 
 /-- the full refinement of the chunk-level patch merge (range patches, splits) to the key-wise
